@@ -7,6 +7,7 @@ import (
 
 	"verif/internal/h"
 
+	"github.com/tuneinsight/lattigo/v6/circuits/ckks/lintrans"
 	"github.com/tuneinsight/lattigo/v6/core/rgsw"
 	"github.com/tuneinsight/lattigo/v6/core/rlwe"
 	"github.com/tuneinsight/lattigo/v6/ring"
@@ -50,6 +51,8 @@ type EvalCase struct {
 	Keys           KeyCfg     `json:"keys"`
 	NewKeys        KeyCfg     `json:"newKeys"`            // WithKey: the key set bound to the copy
 	LateRots       []int      `json:"lateRots,omitempty"` // Galois keys added to the shared key set after construction
+	LateNew        []int      `json:"lateNew,omitempty"`  // Galois keys added to the NEW key set after the copy was derived with WithKey
+	Chain2         string     `json:"chain2,omitempty"`   // second derivation applied to the copy: "" | ShallowCopy | WithKey
 	UseBefore      bool       `json:"useBefore,omitempty"`
 	Levels         []int      `json:"levels"` // levels of the three input ciphertexts
 	Ops            []Op       `json:"ops"`
@@ -64,13 +67,20 @@ var opKinds = map[string][]string{
 	"bgv": {"add-ct", "add-pt", "add-scalar", "add-vec", "sub-ct", "mul-ct", "mul-pt", "mul-scalar", "mul-vec", "mulrelin", "mulrelin", "mulsi", "mulrelinsi",
 		"multhenadd", "mulrelinthenadd", "rescale", "rotcol", "rotcol", "rotrow", "innersum", "encode", "relinnew"},
 	"ckks": {"add-ct", "add-pt", "add-const", "add-vec", "sub-ct", "mul-ct", "mul-pt", "mul-const", "mul-vec", "mulrelin", "mulrelin", "multhenadd", "multhenadd-const",
-		"mulrelinthenadd", "rescale", "rotate", "rotate", "conjugate", "innersum", "hoisted", "encode", "relinnew"},
+		"mulrelinthenadd", "rescale", "rotate", "rotate", "conjugate", "innersum", "hoisted", "encode", "relinnew", "lintrans", "lintrans"},
 }
 
 func genKeyCfg(t *rapid.T, label string, allowNil bool) KeyCfg {
 	var k KeyCfg
 	if allowNil && rapid.IntRange(0, 7).Draw(t, label+"_nil") == 0 {
 		k.Nil = true
+		return k
+	}
+	switch rapid.IntRange(0, 5).Draw(t, label+"_initial") {
+	case 0:
+		return k // empty key set
+	case 1:
+		k.Relin = true // relinearization key only
 		return k
 	}
 	k.Relin = rapid.IntRange(0, 3).Draw(t, label+"_relin") != 0
@@ -117,10 +127,28 @@ func genEvalCase(t *rapid.T, concurrent bool) EvalCase {
 	if c.Mode == "WithKey" {
 		c.NewKeys = genKeyCfg(t, "newKeys", false)
 	}
-	if !c.Keys.Nil && rapid.IntRange(0, 2).Draw(t, "late") == 0 {
+	lateOdds := 2
+	if concurrent {
+		lateOdds = 1 // the growing key set is the main shared mutable object of the parallel scenarios
+	}
+	if !c.Keys.Nil && rapid.IntRange(0, lateOdds).Draw(t, "late") == 0 {
 		n := rapid.IntRange(1, 2).Draw(t, "nlate")
 		for i := 0; i < n; i++ {
 			c.LateRots = append(c.LateRots, pick(t, fmt.Sprintf("late%d", i), 5, 6, -2, 9))
+		}
+	}
+	if !concurrent {
+		c.Chain2 = pick(t, "chain2", "", "", "ShallowCopy", "WithKey")
+		if c.Mode == "WithKey" || c.Chain2 == "WithKey" {
+			if c.Mode != "WithKey" {
+				c.NewKeys = genKeyCfg(t, "newKeys2", false)
+			}
+			if rapid.IntRange(0, 2).Draw(t, "lateNewK") != 0 {
+				n := rapid.IntRange(1, 2).Draw(t, "nlateNew")
+				for i := 0; i < n; i++ {
+					c.LateNew = append(c.LateNew, pick(t, fmt.Sprintf("lateNew%d", i), 5, 6, -2, 9, 3))
+				}
+			}
 		}
 	}
 	c.UseBefore = rapid.Bool().Draw(t, "useBefore")
@@ -138,7 +166,9 @@ func genEvalCase(t *rapid.T, concurrent bool) EvalCase {
 		op := Op{Kind: kinds[rapid.IntRange(0, len(kinds)-1).Draw(t, fmt.Sprintf("op%d", i))]}
 		op.A = rapid.IntRange(0, 2).Draw(t, fmt.Sprintf("a%d", i))
 		op.B = rapid.IntRange(0, 2).Draw(t, fmt.Sprintf("b%d", i))
-		pool := append(append(append([]int{}, c.Keys.Rots...), c.LateRots...), c.NewKeys.Rots...)
+		pool := append(append(append(append([]int{}, c.Keys.Rots...), c.LateRots...), c.NewKeys.Rots...), c.LateNew...)
+		pool = append(pool, c.LateNew...) // the keys added after a WithKey derivation are the interesting ones
+		pool = append(pool, c.LateRots...)
 		if len(pool) > 0 && rapid.IntRange(0, 3).Draw(t, fmt.Sprintf("kk%d", i)) != 0 {
 			op.K = pool[rapid.IntRange(0, len(pool)-1).Draw(t, fmt.Sprintf("kp%d", i))]
 		} else {
@@ -152,25 +182,26 @@ func genEvalCase(t *rapid.T, concurrent bool) EvalCase {
 
 // evalEnv is everything built once per case (deterministically from the seed): parameters, keys, inputs.
 type evalEnv struct {
-	c      EvalCase
-	rp     rlwe.Parameters
-	bp     bgv.Parameters
-	cp     ckks.Parameters
-	prov   rlwe.ParameterProvider
-	sk     *rlwe.SecretKey
-	sk2    *rlwe.SecretKey
-	kgen   *rlwe.KeyGenerator
-	evk    *rlwe.MemEvaluationKeySet // nil when c.Keys.Nil
-	newEvk *rlwe.MemEvaluationKeySet
-	late   []*rlwe.GaloisKey
-	swk    *rlwe.EvaluationKey
-	cts    []*rlwe.Ciphertext
-	ct2    *rlwe.Ciphertext // degree-2 ciphertext
-	pt     *rlwe.Plaintext
-	rgswCt *rgsw.Ciphertext
-	vecU   []uint64
-	vecC   []complex128
-	maxLvl int
+	c       EvalCase
+	rp      rlwe.Parameters
+	bp      bgv.Parameters
+	cp      ckks.Parameters
+	prov    rlwe.ParameterProvider
+	sk      *rlwe.SecretKey
+	sk2     *rlwe.SecretKey
+	kgen    *rlwe.KeyGenerator
+	evk     *rlwe.MemEvaluationKeySet // nil when c.Keys.Nil
+	newEvk  *rlwe.MemEvaluationKeySet
+	late    []*rlwe.GaloisKey
+	lateNew []*rlwe.GaloisKey
+	swk     *rlwe.EvaluationKey
+	cts     []*rlwe.Ciphertext
+	ct2     *rlwe.Ciphertext // degree-2 ciphertext
+	pt      *rlwe.Plaintext
+	rgswCt  *rgsw.Ciphertext
+	vecU    []uint64
+	vecC    []complex128
+	maxLvl  int
 }
 
 func evkParams(k KeyCfg) []rlwe.EvaluationKeyParameters {
@@ -236,8 +267,11 @@ func buildEvalEnv(c EvalCase) (*evalEnv, error) {
 	e.sk = e.kgen.GenSecretKeyNew()
 	e.sk2 = e.kgen.GenSecretKeyNew()
 	e.evk = e.buildKeySet(c.Keys)
-	if c.Mode == "WithKey" {
+	if c.Mode == "WithKey" || c.Chain2 == "WithKey" {
 		e.newEvk = e.buildKeySet(c.NewKeys)
+	}
+	for _, g := range galoisElements(e.rp, c.LateNew, false) {
+		e.lateNew = append(e.lateNew, e.kgen.GenGaloisKeyNew(g, e.sk, evkParams(c.NewKeys)...))
 	}
 	for _, g := range galoisElements(e.rp, c.LateRots, false) {
 		e.late = append(e.late, e.kgen.GenGaloisKeyNew(g, e.sk, evkParams(c.Keys)...))
@@ -565,6 +599,21 @@ func (e *evalEnv) runOp(o evalObj, op Op) string {
 					return "err"
 				}
 				return dgCt(m[op.K], nil) + dgCt(m[op.N], nil)
+			case "lintrans":
+				// a linear-transformation evaluator built on the evaluator under test: diagonals 0 and K (rotation by K)
+				slots := 1 << a.LogDimensions.Cols
+				d0, dk := make([]complex128, slots), make([]complex128, slots)
+				for j := range d0 {
+					d0[j], dk[j] = complex(0.5, 0), complex(0.25, float64(j%3))
+				}
+				diags := lintrans.Diagonals[complex128]{0: d0, op.K: dk}
+				ltp := lintrans.Parameters{DiagonalsIndexList: diags.DiagonalsIndexList(), LevelQ: lvl, LevelP: e.cp.MaxLevelP(),
+					Scale: rlwe.NewScale(e.cp.Q()[lvl]), LogDimensions: a.LogDimensions, LogBabyStepGiantStepRatio: -1}
+				lt := lintrans.NewTransformation(e.cp, ltp)
+				if err := lintrans.Encode(ckks.NewEncoder(e.cp), diags, lt); err != nil {
+					return "err"
+				}
+				return dgCt(lintrans.NewEvaluator(ev).EvaluateNew(a, lt))
 			case "encode":
 				pt := ckks.NewPlaintext(e.cp, lvl)
 				if err := ev.Encode(e.vecC, pt); err != nil {
@@ -643,6 +692,15 @@ func (e *evalEnv) describe(c EvalCase, res []string, rec *h.Rec) {
 	if len(c.LateRots) > 0 {
 		feats = append(feats, "lateKeys")
 	}
+	if len(c.LateNew) > 0 {
+		feats = append(feats, "lateKeysAfterWithKey")
+	}
+	if c.Chain2 != "" {
+		feats = append(feats, "chain="+c.Mode+"."+c.Chain2)
+	}
+	if !c.Keys.Nil && !c.Keys.Relin && len(c.Keys.Rots) == 0 && !c.Keys.Conj && !c.Keys.Inner {
+		feats = append(feats, "emptyKeySet")
+	}
 	if len(c.RLWE.P) == 0 {
 		feats = append(feats, "noP")
 	}
@@ -713,27 +771,45 @@ func runEvalCopy(c EvalCase, rec *h.Rec) error {
 		e.runOps(orig, c.Ops)
 	}
 
-	var cp, ref evalObj
-	fresh := c.Mode == "ShallowCopy"
-	var skip []string
-	if fresh {
-		cp = orig.shallowCopy()
-		ref = orig
-	} else {
-		cp = orig.withKey(e.newEvk)
-		ref = e.newEvaluator(e.newEvk) // what a freshly constructed evaluator bound to the new keys looks like
-		skip = nil
+	// derivation route of the copy: Mode, then optionally Chain2
+	derive := func(o evalObj, step string) evalObj {
+		if step == "WithKey" {
+			return o.withKey(e.newEvk)
+		}
+		return o.shallowCopy()
 	}
+	cp := derive(orig, c.Mode)
+	if c.Chain2 != "" {
+		cp = derive(cp, c.Chain2)
+	}
+	rebound := c.Mode == "WithKey" || c.Chain2 == "WithKey"
+	// the copy shares its buffers with the original only when every step was a WithKey
+	fresh := c.Mode == "ShallowCopy" || c.Chain2 == "ShallowCopy"
+	ref := orig
+	if rebound {
+		ref = e.newEvaluator(e.newEvk) // what a newly constructed evaluator bound to the new keys looks like
+	}
+	var skip []string
 	if !lateBefore {
 		e.addLateKeys()
+	}
+	// history: the key set the copy was bound to grows AFTER the derivation
+	if rebound {
+		for _, gk := range e.lateNew {
+			e.newEvk.GaloisKeys[gk.GaloisElement] = gk
+		}
+	}
+	route := c.Mode
+	if c.Chain2 != "" {
+		route += "." + c.Chain2
 	}
 
 	// (1) configuration completeness
 	tainted := false
 	sRef, sCp := takeSnapshot(ref.ptr()), takeSnapshot(cp.ptr())
-	for _, d := range compareConfig(sRef, sCp, fresh, !(fresh && c.UseBefore), skip) {
-		key := fmt.Sprintf("C10:%s.%s:config:%s:%s", tn, c.Mode, d.kind, stripIdx(d.path))
-		msg := fmt.Sprintf("%s.%s: %s at field path %q (copy vs %s)", tn, c.Mode, d.kind, d.path, map[bool]string{true: "original", false: "a new evaluator bound to the same keys"}[fresh])
+	for _, d := range compareConfig(sRef, sCp, fresh, !(!rebound && c.UseBefore), skip) {
+		key := fmt.Sprintf("C10:%s.%s:config:%s:%s", tn, route, d.kind, stripIdx(d.path))
+		msg := fmt.Sprintf("%s.%s: %s at field path %q (copy vs %s)", tn, route, d.kind, d.path, map[bool]string{false: "original", true: "a new evaluator bound to the same keys"}[rebound])
 		if rec.Known(key, msg) {
 			tainted = true // behaviour of the copy is expected to differ for this listed reason
 			rec.Class("known=" + key)
@@ -744,10 +820,11 @@ func runEvalCopy(c EvalCase, rec *h.Rec) error {
 
 	// (2) behavioural differential: reference results
 	var want []string
-	if fresh {
+	if !rebound {
 		want = e.runOps(orig, c.Ops)
 	} else {
-		want = e.runOps(ref, c.Ops)
+		// reference: an evaluator constructed now, on the key set as it is now
+		want = e.runOps(e.newEvaluator(e.newEvk), c.Ops)
 	}
 	origWant := e.runOps(orig, c.Ops)
 	if err := e.checkLateKeys(orig, origWant, rec); err != nil {
@@ -763,8 +840,8 @@ func runEvalCopy(c EvalCase, rec *h.Rec) error {
 	after := takeSnapshot(orig.ptr())
 
 	if i := firstDiff(want, got); i >= 0 && !tainted {
-		key := fmt.Sprintf("C10:%s.%s:behaviour:%s", tn, c.Mode, c.Ops[i].Kind)
-		msg := fmt.Sprintf("%s.%s: op #%d %+v gives %s on the copy but %s on the reference", tn, c.Mode, i, c.Ops[i], got[i], want[i])
+		key := fmt.Sprintf("C10:%s.%s:behaviour:%s", tn, route, c.Ops[i].Kind)
+		msg := fmt.Sprintf("%s.%s (late keys on the original set %v, on the new set %v): op #%d %+v gives %s on the copy but %s on the reference", tn, route, c.LateRots, c.LateNew, i, c.Ops[i], got[i], want[i])
 		if !rec.Known(key, msg) {
 			return h.Failf(key, "%s", msg)
 		}
@@ -774,22 +851,22 @@ func runEvalCopy(c EvalCase, rec *h.Rec) error {
 		ignore = append(ignore, clsBuffer) // WithKey documents shared buffers
 	}
 	for _, d := range compareState(before, after, ignore...) {
-		key := fmt.Sprintf("C10:%s.%s:original-changed:%s", tn, c.Mode, stripIdx(d.path))
-		msg := fmt.Sprintf("%s.%s: using the copy changed the original at %q", tn, c.Mode, d.path)
+		key := fmt.Sprintf("C10:%s.%s:original-changed:%s", tn, route, stripIdx(d.path))
+		msg := fmt.Sprintf("%s.%s: using the copy changed the original at %q", tn, route, d.path)
 		if !rec.Known(key, msg) {
 			return h.Failf(key, "%s", msg)
 		}
 	}
 	if got2 := e.runOps(cp, c.Ops); !tainted {
 		if i := firstDiff(got, got2); i >= 0 {
-			return h.Failf(fmt.Sprintf("C10:%s.%s:copy-second-use:%s", tn, c.Mode, c.Ops[i].Kind),
-				"%s.%s: op #%d %+v on the copy gives %s the second time, %s the first time", tn, c.Mode, i, c.Ops[i], got2[i], got[i])
+			return h.Failf(fmt.Sprintf("C10:%s.%s:copy-second-use:%s", tn, route, c.Ops[i].Kind),
+				"%s.%s: op #%d %+v on the copy gives %s the second time, %s the first time", tn, route, i, c.Ops[i], got2[i], got[i])
 		}
 	}
 	again := e.runOps(orig, c.Ops)
 	if i := firstDiff(origWant, again); i >= 0 {
-		return h.Failf(fmt.Sprintf("C10:%s.%s:original-results-changed:%s", tn, c.Mode, c.Ops[i].Kind),
-			"%s.%s: after the copy was used, op #%d %+v on the original gives %s instead of %s", tn, c.Mode, i, c.Ops[i], again[i], origWant[i])
+		return h.Failf(fmt.Sprintf("C10:%s.%s:original-results-changed:%s", tn, route, c.Ops[i].Kind),
+			"%s.%s: after the copy was used, op #%d %+v on the original gives %s instead of %s", tn, route, i, c.Ops[i], again[i], origWant[i])
 	}
 	if in1 := e.inputsDigest(); in1 != in0 {
 		return h.Failf("C10:"+tn+":inputs-modified", "an operation with a fresh output modified its inputs")
